@@ -9,7 +9,9 @@
 
     - a syntax error (lexing or parsing fails) leaves the manager UNCHANGED,
       whatever the manager ([add_expr_syntax_error]);
-    - requests off: any spellings, either outcome ([add_expr_total]);
+    - requests off: any spellings, either outcome ([add_expr_total]); the
+      outcome may be the [RuntimeError] of a full table ([max_nodes]), which
+      these safety statements allow (the manager stays well formed);
     - requests on or off, top level: [dsafe_add_expr]. *)
 From stdpp Require Import strings.
 From DD Require Export Dynamic3 ExprSem.
@@ -129,8 +131,9 @@ Proof.
 Qed.
 
 (** the three outcomes in one statement: a syntax error (state unchanged), or
-    a tree [t] that is evaluated: totality for every tree, and the meaning of
-    the result for an accepted tree *)
+    a tree [t] that is evaluated: totality for every tree (a full table,
+    [Err ERuntime], included), and the meaning of the result for an accepted
+    tree when the table is unbounded *)
 Theorem add_expr_any lt rw P sp s r s' :
   Inv s → last_len s = None → add_expr lt rw P sp s = (r, s') →
   (syntax_error lt rw P sp ∧ r = Err EValue ∧ s' = s) ∨
@@ -138,7 +141,8 @@ Theorem add_expr_any lt rw P sp s r s' :
      Inv s' ∧ extends s s' ∧ frame s s' ∧ (∀ L, Counts s L → Counts s' L) ∧
      (∀ u, valid s u → valid s' u ∧ ∀ ρ, denv s' u ρ = denv s u ρ) ∧
      r ≠ Err ENeedsReordering ∧ (tape s = [] → r ≠ Err EOracle) ∧
-     (ok_ast s t → ∃ u, r = Ok u ∧ valid s' u ∧ ∀ ρ, denv s' u ρ = asem s t ρ)).
+     (ok_ast s t → max_nodes s = None →
+      ∃ u, r = Ok u ∧ valid s' u ∧ ∀ ρ, denv s' u ρ = asem s t ρ)).
 Proof.
   intros HI Hl H.
   destruct (lex_all lt rw sp) as [ts|] eqn:Elex; cycle 1.
@@ -149,9 +153,9 @@ Proof.
     rewrite (add_expr_syntax_error lt rw P sp s Hse) in H. by injection H as <- <-. }
   right. exists ts, t. split; [done|]. split; [done|].
   destruct (add_expr_total lt rw P sp s r s' HI Hl H) as (?&?&?&?&?&?&?).
-  do 7 (split; [done|]). intros Hok.
-  destruct (add_expr_sem lt rw P sp ts t s r s' HI Hl Elex Eparse Hok H)
-    as (u&->&_&_&_&Hu&HD).
+  do 7 (split; [done|]). intros Hok Hmx.
+  destruct (add_expr_sem lt rw P sp ts t s r s' HI Hl Hmx Elex Eparse Hok H)
+    as (u&->&_&_&_&_&Hu&HD).
   by exists u.
 Qed.
 
